@@ -52,3 +52,68 @@ func init() {
 		},
 	}...)
 }
+
+func init() {
+	trSpecs = append(trSpecs, []trSpec{
+		{
+			Name: "v2_process_head", Props: []string{"C16", "C17"},
+			File: "pkg/v2/observer/polling/observer.go", Func: "PollingObserver.processLatestHead",
+			Atoms: []atom{{"ids.err != nil", "ids_err", "bool"}, {"keys == nil", "no_keys", "bool"}, {"run.err != nil", "run_err", "bool"}},
+			Binders: map[string]map[string]string{
+				"ctx, cancel := context.WithTimeout(ctx, o.samplingDuration)": {},
+				"var ( keys []ocr2keepers.UpkeepKey ids []ocr2keepers.UpkeepIdentifier err error )": {},
+				"ids, err = o.src.GetActiveUpkeepIDs(ctx)":                          {"err != nil": "ids.err != nil"},
+				"keys = make([]ocr2keepers.UpkeepKey, len(ids))":                    {},
+				"keys = o.shuffleAndSliceKeysToRatio(keys)":                         {},
+				"results, err := o.runner.CheckUpkeep(ctx, o.mercuryLookup, keys...)": {"err != nil": "run.err != nil"},
+			},
+			Actions: map[string]int{
+				"ids, err = o.src.GetActiveUpkeepIDs(ctx)": 1, "for i, id := range ids { }": 2,
+				"keys = o.shuffleAndSliceKeysToRatio(keys)": 3, "o.stager.prepareBlock(blockKey)": 4,
+				"results, err := o.runner.CheckUpkeep(ctx, o.mercuryLookup, keys...)": 5,
+				"for _, res := range results { }": 6, "o.stager.advance()": 7,
+			},
+			Ignore: []string{`^o\.logger\.`, `^defer cancel\(\)$`},
+		},
+		{
+			Name: "v2_process_head_result", Props: []string{"C16", "C17"},
+			File: "pkg/v2/observer/polling/observer.go", Func: "PollingObserver.processLatestHead", Loop: 2,
+			Atoms: []atom{
+				{"elig.err != nil", "elig_err", "bool"}, {"eligible", "eligible", "bool"},
+				{"detail.err != nil", "detail_err", "bool"}, {"split.err != nil", "split_err", "bool"},
+			},
+			Binders: map[string]map[string]string{
+				"eligible, err := o.encoder.Eligible(res)":    {"err != nil": "elig.err != nil"},
+				"key, _, err := o.encoder.Detail(res)":        {"err != nil": "detail.err != nil"},
+				"_, id, err := o.encoder.SplitUpkeepKey(key)": {"err != nil": "split.err != nil"},
+			},
+			Actions: map[string]int{"o.stager.prepareIdentifier(id)": 1},
+			Ignore:  []string{`^o\.logger\.`},
+		},
+		{
+			Name: "v2_shuffle_slice", Props: []string{"C16"},
+			File: "pkg/v2/observer/polling/observer.go", Func: "PollingObserver.shuffleAndSliceKeysToRatio",
+			Atoms:   []atom{{"len(keys)", "n_keys", "Z"}, {"size", "size", "Z"}},
+			Binders: map[string]map[string]string{"keys = o.shuffler.Shuffle(keys)": {}, "size := o.ratio.OfInt(len(keys))": {}},
+			Actions: map[string]int{"keys = o.shuffler.Shuffle(keys)": 1},
+			Rets:    map[string]int{"nil": 0, "keys[:size]": 1},
+			Ignore:  []string{`^o\.logger\.`},
+		},
+		{
+			Name: "v2_stager_advance", Props: []string{"C16", "C17"},
+			File: "pkg/v2/observer/polling/observer.go", Func: "stager.advance",
+			Actions: map[string]int{
+				"s.currentBlock = s.nextBlock": 1, "s.currentIDs = make([]ocr2keepers.UpkeepIdentifier, len(s.nextIDs))": 2,
+				"copy(s.currentIDs, s.nextIDs)": 3, "s.nextIDs = make([]ocr2keepers.UpkeepIdentifier, 0)": 4,
+			},
+			Ignore: []string{`^(defer )?s\.(R)?(L|Unl)ock\(\)$`},
+		},
+		{
+			Name: "v2_stager_prepare_id", Props: []string{"C16", "C17"},
+			File: "pkg/v2/observer/polling/observer.go", Func: "stager.prepareIdentifier",
+			Atoms:   []atom{{"s.nextIDs == nil", "fresh", "bool"}},
+			Actions: map[string]int{"s.nextIDs = []ocr2keepers.UpkeepIdentifier{}": 1, "s.nextIDs = append(s.nextIDs, id)": 2},
+			Ignore:  []string{`^(defer )?s\.(R)?(L|Unl)ock\(\)$`},
+		},
+	}...)
+}
